@@ -277,7 +277,7 @@ pub fn main(tier: Tier, seed: u64) -> i32 {
     // chunk size 1500 (12 kB per chunk) makes the file larger than the readers' 8 KiB buffers, so that an
     // abandoned read leaves the shared OS offset in the middle of the file
     let cs: Vec<usize> = if tier.is_thorough() { vec![4, 2, 7, 1500] } else { vec![4, 1500] };
-    let results = par_map(&cs, |w, _, c| bfs(*c, 12, if *c > 100 { 3 } else if tier.is_thorough() { 5 } else { 4 }, &party_tmp_dir(w, 40 + *c)));
+    let results = par_map(&cs, |w, _, c| bfs(*c, 12, if *c > 100 { 3 } else { 5 }, &party_tmp_dir(w, 40 + *c)));
     let mut states = 0;
     let mut transitions = 0;
     for (c, r) in cs.iter().zip(results.iter()) {
